@@ -256,7 +256,8 @@ func zzTSEq(a zzRefTS, b CdrHdrTimeStamp) bool {
 //gosx:property=C15 tier=quick shards=6 p.maxrec=2 p.maxrec.thorough=3 p.extlens=2 p.extlens.thorough=3 p.payloadlens=2 p.payloadlens.thorough=4
 func ZZ_C15_Layout() {
 	f := zzFile()
-	if vx.Param("shard", 0) == 0 && vx.Choice("pathAlreadyHoldsALongerFile", 2) == 1 { // (one shard explores the rewrite)
+	// (one shard explores the rewrite, for files of up to two records)
+	if vx.Param("shard", 0) == 0 && len(f.CdrList) <= 2 && vx.Choice("pathAlreadyHoldsALongerFile", 2) == 1 {
 		// the CHF rewrites one file per subscriber: the path may hold an older,
 		// longer file (here: the same content plus 8 more octets)
 		f.Encoding("/tmp/zz_c15.cdr")
